@@ -22,11 +22,31 @@ Reference statement (not pony code):
                      A plain container left inside a tracked value can be changed later without any notification.
   R (read rule)      a reading operation leaves _wbits_, _status_, objects_to_save and cache.modified untouched.
 
-Bounds (quick / thorough) are in the `pre:` lines; list C code (index arithmetic) is not symbolic - CrossHair realises an
-index that is handed to `list.insert` etc., so indices are small ranges that cover "negative, inside, == len, beyond" for the
-lists used.  Deviation from DESIGN.md: ordered *pairs* of operations are not enumerated; the wrapping rule W replaces them (a
-pair can only go wrong when the first step leaves an untracked container or an unmarked change, and both are asserted
-after every single step from a representative W-state at depth 0, 1 and 2).
+Harness families (one harness per target container; targets are the attribute value itself, a container one level down and
+a container two levels down, for a dict-rooted and a list-rooted Json document, and the three array types):
+  l_ops_*    rules M and W for append/insert/setitem/delitem/pop/remove/extend/reverse/sort/clear, for the statements
+             `obj.attr += x`, `obj.attr *= n`, `parent[key] += x` ... (load, in-place operator, store back) and for plain assignment
+  l_slice_*  rules M and W for slice assignment and slice deletion (quick tier: three targets; thorough: all)
+  l_read_*   rule R for every reading operation of list
+  d_ops_* / d_read_*   the same for dict (setitem/delitem/setdefault/pop/popitem/clear/update in its call forms, `|=` statement)
+  l_alias_* / d_alias_*   the in-place operators applied to a name bound to the tracked value (`t = obj.tags; t += [1]`, `t *= 2`,
+             `t |= {...}`) and rule W for the statement forms.  RED on the unchanged tree: list.__iadd__/__imul__ and dict.__ior__ are
+             inherited unwrapped (finding `inplace-operator-not-tracked`).  DESIGN.md expected `obj.tags += [...]` itself to be lost;
+             that is refuted - the statement ends with a store that marks the attribute - but the new items are not wrapped.
+  l_wn_*     rule W when the new items come from an iterable that is neither list nor dict (tuple, iterator, generator).  RED on
+             the unchanged tree: tracked_method only wraps list/dict ARGUMENTS, so `lst.extend(({},))` or `lst[0:0] = iter([[]])`
+             stores plain containers (finding `items-from-non-list-iterable-not-wrapped`).
+The two RED families are separate harnesses so that every other operation is still decided (CrossHair stops a harness at its
+first counterexample); they assert exactly the same rules and turn green when the containers are repaired.
+
+Bounds (quick / thorough) are the module constants below and the `pre:` lines.  list/dict C code is not symbolic: a symbolic
+index handed to `list.insert` is realised inside `__index__`; the bounded arguments are therefore made concrete by explicit
+comparisons (`pick`), lazily, so an operation forks only on the arguments it reads; the inserted integer stays symbolic and
+unbounded (it decides whether `remove`/`setitem`/`sort` change anything).  Index ranges cover "negative, inside, == len, beyond"
+for the 2-4 item lists used.  Deviation from DESIGN.md: ordered *pairs* of operations are not explored symbolically; rule W
+replaces them (a pair can only go wrong when its first step leaves an untracked container or an unmarked change, and both are
+asserted after every single step from W-states at depth 0, 1 and 2), and checks/c28.py runs every ordered pair
+`op1; flush(); op2; commit; re-read` concretely in the thorough tier.
 """
 import operator
 import os
@@ -36,7 +56,7 @@ from engine.ch import ok
 
 THOROUGH = os.environ.get('C28_TIER') == 'thorough'
 IDX_LO, IDX_HI = (-6, 6) if THOROUGH else (-2, 4)        # list index range (lists have 2..4 items)
-SL_LO, SL_HI = (-2, 3) if THOROUGH else (-1, 1)          # slice bound range (None is always included)
+SL_LO, SL_HI = (-2, 2) if THOROUGH else (-1, 1)          # slice bound range (None is always included)
 STEPS = (None, 2, -1) if THOROUGH else (None, 2)
 NSTEP = len(STEPS)
 N_LO, N_HI = (-1, 3) if THOROUGH else (0, 2)             # repeat count for *=
@@ -44,7 +64,7 @@ NSHAPE = 7 if THOROUGH else 4                            # value shapes (see val
 NSEQ = 6 if THOROUGH else 4                              # iterable-argument shapes (see iterable() / mapping())
 NONLIST = (1, 2, 5) if THOROUGH else (1, 2)              # iterable shapes that are neither list nor dict: tuple, iterator, generator
 NNONLIST = len(NONLIST)
-NSLSHAPE = 3 if THOROUGH else 2                          # value shapes used by the slice-assignment harnesses
+NSLSHAPE = 2                                             # value shapes used by the slice-assignment harnesses
 
 db = None
 J = R = None
